@@ -482,6 +482,38 @@ func (g *c12Gen) chain() jast.Node {
 		}
 		return &jast.Var{Name: "f"}
 	}
+	if r.Intn(6) == 0 {
+		// f(?, x) is a function of its placeholders: x is fixed where the partial
+		// application is written, whatever is bound or raised afterwards
+		g.tags["partial:given-argument-rebound-later"] = true
+		num := func() jast.Node { return &jast.Num{V: float64(r.Range(1, 6))} }
+		fn := r.Pick("power", "append", "substring")
+		var given jast.Node = &jast.Var{Name: "x"}
+		if r.Intn(3) == 0 {
+			given = &jast.Bin{Op: "+", L: &jast.Var{Name: "x"}, R: num()}
+		}
+		partial := &jast.Call{Fn: &jast.Var{Name: fn}, Args: []jast.Node{&jast.Placeholder{}, given}}
+		var arg jast.Node = num()
+		if fn == "substring" {
+			arg = &jast.Str{V: "abcdefgh"}
+		}
+		b := &jast.Block{Exprs: []jast.Node{
+			&jast.Assign{Name: "x", Val: num()},
+			&jast.Assign{Name: "p", Val: partial},
+			&jast.Assign{Name: "x", Val: num()},
+		}}
+		switch r.Intn(3) {
+		case 0:
+			b.Exprs = append(b.Exprs, &jast.Array{Items: []jast.Node{&jast.Call{Fn: &jast.Var{Name: "p"}, Args: []jast.Node{arg}}, &jast.Var{Name: "x"}}})
+		case 1:
+			// inside a lambda that shadows $x
+			b.Exprs = append(b.Exprs, &jast.Call{Fn: &jast.Lambda{Params: []string{"x"}, Body: &jast.Call{Fn: &jast.Var{Name: "p"}, Args: []jast.Node{arg}}}, Args: []jast.Node{num()}})
+		default:
+			b.Exprs = append(b.Exprs, call("map", lit(A{1.0, 2.0}), &jast.Var{Name: "p"}))
+		}
+		g.tags["chain"] = true
+		return b
+	}
 	if r.Intn(5) == 0 {
 		// one composed base function extended several times: every extension is
 		// a function of its own (f ~> g must not disturb f or other extensions of f)
